@@ -191,7 +191,65 @@ def c20(tier, seed):
     return c.finish("other", "finite: every entry of the five shipped tables (executed init) against well-formedness predicates (z3 over a symbolic entry index), the pinned baseline, and the real look-up code", {"entries": "all"})
 
 
-PROPS = {"C20": c20, "C01": c01, "C02": c02, "C08": c08, "C12": c12, "C13": c13, "C15": c15, "C16": c16, "C17": c17, "C18": c18}
+SPECSQL = BASE + H("h_sqli.go", "h_spec_sqli.go", "h_xss_units.go") + S("strlit.go", "sqltok.go", "sqlfold.go")
+URL = BASE + H("h_url.go") + S("entity.go", "strlit.go")
+
+
+def c06(tier, seed):
+    c = Check("C06", tier, seed)
+    NU, NW = (5, 3) if tier == "quick" else (7, 4)
+    jobs = []
+    for f in range(5):
+        jobs += wjobs("HSpecLex", NU, extra=[f], split_from=4, wbig=300)
+    c.run_group("U-first-token", SPECSQL, jobs, expect_labels=["checked"])
+    jobs = []
+    for f in range(5):
+        jobs += wjobs("HSpecStream", NW, extra=[f])
+        jobs += wjobs("HSpecFold", NW, extra=[f])
+    c.run_group("W-stream-fold", SPECSQL, jobs, expect_labels=["checked"])
+    c.run_group("W-api", SPECSQL, wjobs("HSpecIsSQLi", NW), expect_labels=["checked"])
+    c.assumptions.append("text that reaches a Unicode case-folding call is ASCII (other paths are closed as excluded and counted)")
+    return c.finish("model_checking", "implementation vs independently written reference (spec/sqltok.go, spec/sqlfold.go) on the same symbolic input: first token in 5 modes for all inputs <= %d bytes; token stream, folded tokens, fingerprint, context verdict in 5 modes and IsSQLi for all inputs <= %d bytes" % (NU, NW),
+                    {"U_free_bytes": NU, "W_free_bytes": NW, "modes": 5})
+
+
+def c19(tier, seed):
+    c = Check("C19", tier, seed)
+    ND = 7 if tier == "quick" else 9
+    c.run_group("U-decoder", URL, [job("HDecode", [n], witness_every=10) for n in range(0, ND + 1)], expect_labels=["checked"])
+    jobs = []
+    schemes = range(4)
+    names = ["javascript:", "vbscript:", "data:", "view-source:"]
+    hexl = "abcdefABCDEF0123456789"
+    for sch in schemes:
+        nm = names[sch]
+        L = len(nm)
+        for form in range(5):
+            zs = (0,) if form == 0 else ((0, 2) if (tier != "quick" or sch == 0) else (0,))
+            if tier != "quick" and form != 0:
+                zs = (0, 1, 2, 4)
+            for zeros in zs:
+                jobs.append(job("HUrl", [sch, form, 0, 0, zeros, 1, -1, 1], witness_every=3))
+        # exactly one character encoded, all positions, each encoded form; a reference without ';' must not be
+        # followed by a literal digit of its base (then it would be a different reference)
+        for pos in range(L):
+            for f2 in ((1, 4) if tier == "quick" else (1, 2, 3, 4)):
+                if f2 == 4 and pos + 1 < L and nm[pos + 1] in hexl:
+                    continue
+                jobs.append(job("HUrl", [sch, 0, f2, 1 << pos, 1, 0, -1, 1], witness_every=3))
+        # NUL / LF inserted after each scheme character; leading junk of 2-3 bytes
+        for pos in range(L - 1):
+            jobs.append(job("HUrl", [sch, 0, 0, 0, 0, 0, pos, 0], witness_every=3))
+            if tier != "quick":
+                jobs.append(job("HUrl", [sch, 3, 0, 0, 0, 0, pos, 0], witness_every=3))
+        for junk in (2, 3):
+            jobs.append(job("HUrl", [sch, 0, 0, 0, 0, junk, -1, 2 if tier != "quick" else 1], witness_every=3))
+    c.run_group("T-url", URL, jobs, expect_labels=["checked"])
+    return c.finish("model_checking", "character-reference decoder vs reference decoder on every string <= %d bytes; scheme templates (4 schemes x encodings x leading zeros x leading junk x NUL/LF position, letter and hex-digit case symbolic, free tail)" % ND,
+                    {"decoder_free_bytes": ND, "templates": len(jobs)})
+
+
+PROPS = {"C06": c06, "C19": c19, "C20": c20, "C01": c01, "C02": c02, "C08": c08, "C12": c12, "C13": c13, "C15": c15, "C16": c16, "C17": c17, "C18": c18}
 
 
 
